@@ -196,6 +196,8 @@ func runC07(w *World, r *Report) {
 	decideTotalityC07(w, r, funcs, contained)
 
 	// ---------------------------------------------------------------- the stream's parser goroutines
+	r.Rule("reparse", "a decoder re-enters the parser at most once, outside loops (the cost of nested messages stays linear)", 1)
+	reparseRule(w, r, "reparse")
 	r.Rule("handoff", "a parser goroutine returns its pool buffer on every path, also when parsing failed", 1)
 	if so, miss := w.streamObjs(); miss != "" {
 		r.Fail(VViolation, "handoff", "util.MessageStream", "", "-", miss)
